@@ -6,7 +6,7 @@ from typing import List, Optional, Set, Dict, Union
 from excel2pycl.src.handle_cell import handle_cell
 from excel2pycl.src.utilities.abstract_excel_in_python_class import AbstractExcelInPython
 from excel2pycl.src.cell import Cell
-from excel2pycl.src.exceptions import E2PyclExecutorException
+from excel2pycl.src.exceptions import E2PyclExecutorException, E2PyclCellException
 from excel2pycl.src.object_loader import load_module
 
 
@@ -74,7 +74,7 @@ class Executor:
         cells = list(cells)
         for cell in cells:
             # every address is resolved first: a call that is refused leaves sizes and overrides as they were
-            handle_cell(cell, self._titles)
+            self._handle_one_cell(cell)
 
         for cell in cells:
             sheet = cell.title
@@ -89,6 +89,12 @@ class Executor:
         self._cells = {**self._cells, **{cell.uid: copy(cell) for cell in cells}}
         self._cells_have_been_changed = True
         return self
+
+    def _handle_one_cell(self, cell: Cell):
+        handle_cell(cell, self._titles)
+        if cell.row is None:
+            # a position without a row is how formulas name a whole column (A:A); it has no value of its own and can be given none
+            raise E2PyclCellException(f'A single cell is named by its column and its row: {cell}')
 
     def _set_cells_to_executed_instance(self) -> Executor:
         """
@@ -116,7 +122,7 @@ class Executor:
         if self._cells_have_been_changed:
             self._set_cells_to_executed_instance()
 
-        handle_cell(cell, self._titles)
+        self._handle_one_cell(cell)
         cell.value = self._executed_instance.exec_function_in(cell.uid)
 
         return cell
